@@ -639,6 +639,76 @@ theorem C18_crf_step (st : CrfState) (pkt : List Byte) :
             exact Nat.le_trans h (Nat.le_add_right _ _)
       · (first | omega | (dsimp only; omega))
 
+/-! ### CRF listener, AAF-talker mode -/
+
+theorem recoverMclkMtt_length (t p mtt : Nat) : (recoverMclkMtt t p mtt).length ≤ 160 := by
+  unfold recoverMclkMtt
+  exact Nat.le_trans (List.length_filterMap_le _ _) (by simp)
+
+/-- **C18 (CRF listener, AAF-talker mode).** One datagram is one total step: only a PDU of the
+    exact size that passes validation queues timestamps (at most 160); the timer is armed only
+    when a timestamp to start from exists (the dequeue that crashed the original never happens on
+    an empty queue); and every packet sent is exactly one 48-octet AAF PDU. -/
+theorem C18_crf_talker (mtt : Nat) (st : CrfTalkerState) (pkt : List Byte) :
+    (crfTalkerRecv mtt st pkt).clk.queue.length ≤ st.clk.queue.length + 160 ∧
+    (st.armed = false → (crfTalkerRecv mtt st pkt).armed = true →
+        ∃ t rest, (st.clk.queue ++ (if getNamed Spec.commonHeader (recvInto CRF_BUF 0 pkt).1 0 "SUBTYPE" = 0x4 ∧
+              crfPduValid (recvInto CRF_BUF 0 pkt).1 = true
+            then recoverMclkMtt (beN (recvInto CRF_BUF 0 pkt).1 20 8) st.clk.prev mtt else [])) = t :: rest) ∧
+    ∀ ts seq, (crfTalkerPdu ts seq).length = 48 := by
+  refine ⟨?_, ?_, ?_⟩
+  · unfold crfTalkerRecv
+    simp only
+    split
+    · omega
+    · split
+      · rename_i hv
+        have hl := recoverMclkMtt_length (beN (recvInto CRF_BUF 0 pkt).1 20 8) st.clk.prev mtt
+        split
+        · split
+          · rename_i hq; simp only [List.length_append]; omega
+          · rename_i x rest hq
+            simp only
+            have : (st.clk.queue ++ recoverMclkMtt (beN (recvInto CRF_BUF 0 pkt).1 20 8) st.clk.prev mtt).length
+                = (x :: rest).length := by rw [← hq]
+            simp only [List.length_append, List.length_cons] at this
+            omega
+        · simp only [List.length_append]; omega
+      · split
+        · split
+          · omega
+          · rename_i x rest hq
+            simp only
+            have : st.clk.queue.length = (x :: rest).length := by rw [← hq]
+            simp only [List.length_cons] at this
+            omega
+        · omega
+  · intro hna harm
+    unfold crfTalkerRecv at harm
+    simp only at harm
+    split at harm
+    · rw [hna] at harm; cases harm
+    · split at harm
+      · rename_i hv
+        rw [if_pos hv]
+        split at harm
+        · split at harm
+          · simp only at harm; rw [hna] at harm; cases harm
+          · rename_i x rest hq
+            exact ⟨x, rest, hq⟩
+        · simp only at harm; rw [hna] at harm; cases harm
+      · rename_i hv
+        rw [if_neg hv, List.append_nil]
+        split at harm
+        · split at harm
+          · rw [hna] at harm; cases harm
+          · rename_i x rest hq
+            exact ⟨x, rest, hq⟩
+        · rw [hna] at harm; cases harm
+  · intro ts seq
+    unfold crfTalkerPdu
+    simp only [List.length_append, read_length, List.length_replicate]
+
 /-! non-vacuity -/
 example : (mclkLookup 5 640 [] 0).1 = none := by decide +kernel
 example : (mclkLookup 250000 640 [] 0).1 = some 250000 := by decide +kernel
